@@ -115,6 +115,7 @@ struct JEntry
   int level;
   std::string msg;
   std::string statement;
+  std::string named; // "k=v;k=v" of the named args handed to the sink ("" when the pointer is null or the vector empty)
 };
 
 struct World;
@@ -156,7 +157,7 @@ public:
   ~RecSink() override { journal_push(JEntry{_idx, 'D', {}, {}, 0, 0, {}, {}}); }
   void write_log(quill::MacroMetadata const*, uint64_t ts, std::string_view tid, std::string_view, std::string const&,
                  std::string_view logger, quill::LogLevel lvl, std::string_view, std::string_view,
-                 std::vector<std::pair<std::string, std::string>> const*, std::string_view msg, std::string_view stmt) override
+                 std::vector<std::pair<std::string, std::string>> const* na, std::string_view msg, std::string_view stmt) override
   {
     ++writes;
     if (plan.write_calls.count(writes))
@@ -164,7 +165,9 @@ public:
       journal_push(JEntry{_idx, 'X', std::string{logger}, std::string{tid}, ts, static_cast<int>(lvl), std::string{msg}, {}});
       throw std::runtime_error("injected write_log failure in sink " + std::to_string(_idx));
     }
-    journal_push(JEntry{_idx, 'W', std::string{logger}, std::string{tid}, ts, static_cast<int>(lvl), std::string{msg}, std::string{stmt}});
+    JEntry e{_idx, 'W', std::string{logger}, std::string{tid}, ts, static_cast<int>(lvl), std::string{msg}, std::string{stmt}, {}};
+    if (na) for (auto const& kv : *na) e.named += kv.first + "=" + kv.second + ";";
+    journal_push(std::move(e));
   }
   void flush_sink() override;
   int _idx;
@@ -176,7 +179,7 @@ public:
 // model
 // ------------------------------------------------------------------------------------------------------
 enum class OpKind { None, Log, Flush, InitBt, FlushBt, RemoveBlocking, Other };
-enum class SKind { Normal, Backtrace, BadTemplate, BadSpec, Bomb, BtNoInit, MacroStatic, MacroDynamic };
+enum class SKind { Normal, Backtrace, BadTemplate, BadSpec, Bomb, BtNoInit, MacroStatic, MacroDynamic, Named, NamedBtNoInit, Dynamic };
 
 struct Stmt
 {
@@ -344,6 +347,12 @@ constexpr quill::MacroMetadata kMd[] = {
 // unformattable templates (C10)
 constexpr quill::MacroMetadata kMdBadTemplate{"sim.cpp:20", "f", "{}:{}:{} {}", nullptr, quill::LogLevel::Info, quill::MacroMetadata::Event::Log};
 constexpr quill::MacroMetadata kMdBadSpec{"sim.cpp:21", "f", "{}:{}:{:d}", nullptr, quill::LogLevel::Info, quill::MacroMetadata::Event::Log};
+// named-argument statement (same text "w:seq:pad"): the sinks must receive exactly these three pairs, and a later plain
+// statement that reuses the transit slot must receive none
+constexpr quill::MacroMetadata kMdNamed{"sim.cpp:30", "f", "{a}:{b}:{c}", nullptr, quill::LogLevel::Info, quill::MacroMetadata::Event::Log};
+constexpr quill::MacroMetadata kMdNamedBt{"sim.cpp:31", "f", "{a}:{b}:{c}", nullptr, quill::LogLevel::Backtrace, quill::MacroMetadata::Event::Log};
+// level supplied at run time
+constexpr quill::MacroMetadata kMdDyn{"sim.cpp:32", "f", "{}:{}:{}", nullptr, quill::LogLevel::Dynamic, quill::MacroMetadata::Event::Log};
 constexpr quill::MacroMetadata kMdBomb{"sim.cpp:22", "f", "{}{}", nullptr, quill::LogLevel::Info, quill::MacroMetadata::Event::Log};
 
 std::string make_pad(int w, uint32_t seq, uint32_t len)
